@@ -3,6 +3,9 @@ package pomsg
 import (
 	"bytes"
 
+	"strconv"
+
+	"github.com/robfig/gettext/po"
 	"github.com/robfig/soy/ast"
 	"github.com/robfig/soy/data"
 	"github.com/robfig/soy/parse"
@@ -312,4 +315,54 @@ func H_plural(nforms int) {
 	}
 	_ = plain
 	verifAssert(got == "["+body+"]"+c11RestPlural(dm), "C11: the selected plural form is not rendered with the placeholders' own values")
+}
+
+
+// H_catalogue: a bundle with a plural message and plain messages, extracted the way xgettext-soy
+// does (one PO entry per message with its "id=" and "var=" references), loaded through the real
+// newBundle in the order given by perm, identity translations; the render with the catalogue must
+// equal the render without.
+func H_catalogue(perm int) {
+	src := "{namespace n}\n" + c11Doc + "{template .t}\n" +
+		"[{msg desc=\"p\"}{plural $n}{case 1}one {$b}{default}{$n} of {$b}{/plural}{/msg}]" +
+		"[{msg desc=\"q\"}Hello {$b}!{/msg}][{msg desc=\"r\"}<b>{$a}</b> and {$b}{/msg}]{$l}{$c}{$x_1}\n{/template}\n"
+	reg, tofu := c11Registry(src)
+	dm := c11DataFlat()
+	plain, perr := c11Render(tofu, "n.t", dm, nil)
+	verifAssert(perr == nil, "harness: render without catalogue failed")
+	verifObserve("plain", plain)
+	var msgs []*ast.MsgNode
+	for _, t := range reg.Templates {
+		c11FindMsgs(t.Node, &msgs)
+	}
+	verifAssert(len(msgs) == 3, "harness: expected three messages")
+	var entries []po.Message
+	for _, node := range msgs {
+		verifAssert(Validate(node) == nil, "C11: extractable message rejected by Validate")
+		refs := []string{"id=" + strconv.FormatUint(node.ID, 10)}
+		strs := []string{Msgid(node)}
+		if pl, ok := node.Body.Children()[0].(*ast.MsgPluralNode); ok {
+			refs = append(refs, "var="+pl.VarName)
+			strs = append(strs, MsgidPlural(node))
+		}
+		entries = append(entries, po.Message{Comment: po.Comment{ExtractedComments: []string{node.Desc}, References: refs},
+			Ctxt: node.Meaning, Id: Msgid(node), IdPlural: MsgidPlural(node), Str: strs})
+	}
+	orders := [][]int{{0, 1, 2}, {1, 0, 2}, {2, 1, 0}, {1, 2, 0}}
+	var file po.File
+	for _, i := range orders[perm] {
+		file.Messages = append(file.Messages, entries[i])
+	}
+	file.Pluralize = func(n int) int {
+		if n == 1 {
+			return 0
+		}
+		return 1
+	}
+	b, err := newBundle("en", file)
+	verifAssert(err == nil && b != nil, "C11: catalogue produced by the extractor does not load")
+	got, rerr := c11Render(tofu, "n.t", dm, b)
+	verifObserve("translated", got)
+	verifAssert(rerr == nil, "C11: render with the identity catalogue failed")
+	verifAssert(got == plain, "C11: identity catalogue does not render the source text")
 }
